@@ -85,7 +85,9 @@ type RCemi struct {
 }
 
 // IsLData tells whether code is one of the three L_Data codes.
-func IsLData(code uint8) bool { return code == CodeLDataReq || code == CodeLDataInd || code == CodeLDataCon }
+func IsLData(code uint8) bool {
+	return code == CodeLDataReq || code == CodeLDataInd || code == CodeLDataCon
+}
 
 // RDevInfo is the device-information DIB.
 type RDevInfo struct {
